@@ -978,6 +978,13 @@ def check_f(ck, repo):
                     continue  # unreachable statement
                 uses_values = rd.depends_on(st.value, at, {values})
                 uses_prev = rd.depends_on(st.value, at, set(), {attr})
+                # precedence: where the new store is a merge of mappings, the given keys come last
+                order = _merge_order(repo, sp, st.value, st, values, attr)
+                if order is not None and "given" in order and "old" in order:
+                    last_given = max(i for i, x in enumerate(order) if x == "given")
+                    last_old = max(i for i, x in enumerate(order) if x == "old")
+                    ck.verdict(last_given > last_old, "C01.f", sp, st, f"the given keys are merged after the stored ones ({' < '.join(order)})", f"the new self.{attr} is a merge in which the stored parameters come after the given ones ({' < '.join(order)}): a key passed to set_params keeps its old value, so set_params(**get_params()) of another instance changes nothing")
+                    continue
                 if uses_values and not uses_prev:
                     ck.violated(
                         "C01.f",
@@ -987,6 +994,114 @@ def check_f(ck, repo):
                     )
                 else:
                     ck.holds("C01.f", sp, st, f"new self.{attr} depends on its previous value")
+
+
+def _merge_order(repo, fi, e, at, values: str, attr: str, env=None, depth=0):
+    """the order in which mappings are merged into the value of `e` (later wins):
+    a list over {'given', 'old', '?'}; None when the expression is not a merge this reads"""
+    env = env or {}
+    if depth > 6:
+        return None
+
+    def go(x):
+        return _merge_order(repo, fi, x, at, values, attr, env, depth + 1)
+
+    if isinstance(e, ast.Name):
+        if e.id in env:
+            return env[e.id]
+        if e.id == values:
+            return ["given"]
+        # a local: its definition, then the updates made before `at`
+        defs = [s_ for s_ in own_nodes(fi.node) if isinstance(s_, ast.Assign) and len(s_.targets) == 1 and isinstance(s_.targets[0], ast.Name) and s_.targets[0].id == e.id and s_.lineno < at.lineno]
+        if len(defs) != 1:
+            return None
+        out = _merge_order(repo, fi, defs[0].value, defs[0], values, attr, env, depth + 1)
+        if out is None:
+            return None
+        for s_ in sorted((x for x in own_nodes(fi.node) if isinstance(x, ast.Expr) and isinstance(x.value, ast.Call)), key=lambda x: x.lineno):
+            c = s_.value
+            if defs[0].lineno < s_.lineno < at.lineno and isinstance(c.func, ast.Attribute) and isinstance(c.func.value, ast.Name) and c.func.value.id == e.id:
+                if c.func.attr == "update":
+                    for a_ in c.args:
+                        o_ = _merge_order(repo, fi, a_, s_, values, attr, env, depth + 1)
+                        if o_ is None:
+                            return None
+                        out = out + o_
+                    if c.keywords:
+                        for k_ in c.keywords:
+                            if k_.arg is None:
+                                o_ = _merge_order(repo, fi, k_.value, s_, values, attr, env, depth + 1)
+                                if o_ is None:
+                                    return None
+                                out = out + o_
+                elif c.func.attr in ("pop", "clear", "popitem", "setdefault", "__setitem__"):
+                    return None
+        return out
+    if is_self_attr(e) and e.attr == attr:
+        return ["old"]
+    if isinstance(e, ast.Dict):
+        out = []
+        for k_, v_ in zip(e.keys, e.values):
+            if k_ is None:
+                o_ = go(v_)
+                if o_ is None:
+                    return None
+                out += o_
+            else:
+                out.append("?")
+        return out
+    if isinstance(e, ast.Call):
+        f = e.func
+        # X.to_dict() / X.copy() / dict(X) / dict(X, **Y): the mapping(s) themselves
+        if isinstance(f, ast.Attribute) and f.attr in ("to_dict", "copy", "get_params") and not e.args:
+            return go(f.value)
+        if isinstance(f, ast.Name) and f.id in ("dict", "OrderedDict"):
+            out = []
+            for a_ in e.args:
+                o_ = go(a_)
+                if o_ is None:
+                    return None
+                out += o_
+            for k_ in e.keywords:
+                if k_.arg is None:
+                    o_ = go(k_.value)
+                    if o_ is None:
+                        return None
+                    out += o_
+                else:
+                    out.append("?")
+            return out
+        # Constructor(**mapping): a store built from the mapping
+        if isinstance(f, ast.Name) and f.id[:1].isupper() and not e.args and e.keywords and all(k_.arg is None for k_ in e.keywords):
+            out = []
+            for k_ in e.keywords:
+                o_ = go(k_.value)
+                if o_ is None:
+                    return None
+                out += o_
+            return out
+        # a method of the store, found by its name: read through its return
+        if isinstance(f, ast.Attribute):
+            cands = [ci_.methods[f.attr] for ci_ in repo.all_classes() if f.attr in ci_.methods]
+            if len(cands) == 1:
+                m = cands[0]
+                rets = [r_ for r_ in own_nodes(m.node) if isinstance(r_, ast.Return) and r_.value is not None]
+                if len(rets) == 1:
+                    recv = go(f.value)
+                    b = {}
+                    params = m.named_params
+                    if params:
+                        b[params[0]] = recv
+                    for p_, a_ in zip(params[1:], e.args):
+                        b[p_] = go(a_)
+                    for k_ in e.keywords:
+                        if k_.arg in params:
+                            b[k_.arg] = go(k_.value)
+                    if any(v is None for v in b.values()):
+                        return None
+                    return _merge_order(repo, m, rets[0].value, rets[0], "\0", "\0", b, depth + 1)
+        return None
+    return None
 
 
 def _expr_depends(fn, expr, roots: Set[str], before, _depth=0) -> bool:
@@ -1061,6 +1176,46 @@ def check_g(ck, repo, rule="C01.g", only=None):
                         f"self.{src_attr} is replaced but self.{derived} (computed from it by {mname}) is not recomputed on some path: the object keeps calling the old {src_attr}",
                         path=fmt_path(p),
                     )
+
+
+def check_g_ctor(ck, repo):
+    """state the constructor derives from a parameter (self.A = f(p), A not itself a
+    parameter) and that other methods read: the inherited set_params only rebinds self.p,
+    so unless the class's own set_params recomputes self.A the object keeps running with
+    the value derived from the old p while get_params reports the new one."""
+    from .common import hyper_params
+
+    n = 0
+    for ci in estimator_classes(repo):
+        if not is_sklearn_estimator(repo, ci):
+            continue
+        init = ci.methods.get("__init__")
+        if init is None:
+            continue
+        params = set(init.named_params[1:])
+        allp = hyper_params(repo, ci) | params
+        rd = None
+        for a, st, tgt in self_attr_stores(init.node):
+            if a in allp or not isinstance(st, ast.Assign):
+                continue
+            n += 1
+            if rd is None:
+                rd = ReachingDefs(init.node)
+            at = rd.node_of(st)
+            if at is None:
+                continue
+            dep = sorted(p_ for p_ in params if rd.depends_on(st.value, at, {p_}, {p_}))
+            if not dep:
+                ck.holds("C01.g", init, st, f"self.{a} does not depend on a constructor parameter", nontrivial=False)
+                continue
+            readers = sorted(mn for mn, m in ci.methods.items() if mn not in ("__init__", "set_params") and any(is_self_attr(x, a) and isinstance(x.ctx, ast.Load) for x in ast.walk(m.node)))
+            sp_owner, sp = repo.find_method(ci, "set_params")
+            refreshed = sp is not None and any(a_ == a for a_, _s, _t in self_attr_stores(sp.node))
+            if readers and not refreshed:
+                ck.violated("C01.g", init, st, f"self.{a} is computed from the parameter(s) {dep} in the constructor and read by {readers[:4]}, but set_params({dep[0]}=...) only rebinds self.{dep[0]}: the estimator reports the new value through get_params and keeps behaving according to the old one (clone-then-set_params, as a grid search does, is silently wrong)")
+            else:
+                ck.holds("C01.g", init, st, f"self.{a} derived from {dep}: " + ("recomputed by set_params" if refreshed else "read by no other method"))
+    ck.holds("C01.g", None, "constructor-derived state", f"{n} non-parameter attributes assigned by constructors examined", file="-", function="-", line=0)
 
 
 def check_h(ck, repo):
@@ -1186,6 +1341,7 @@ def run(ck):
     check_e(ck, repo)
     check_f(ck, repo)
     check_g(ck, repo)
+    check_g_ctor(ck, repo)
     check_h(ck, repo)
     check_i(ck, repo)
     check_j(ck, repo)
@@ -1213,6 +1369,7 @@ WITNESSES = [
     {"name": "stacking-one-digit-index", "file": _S, "rule": "C01.d", "old": "k[d + len(si[0]) + 2 :]", "new": "k[d + 3 :]"},
     {"name": "stacking-wrong-index", "file": _S, "rule": "C01.d", "old": "i = int(si[0])", "new": "i = int(si[1])"},
     {"name": "stacking-no-return", "file": _S, "rule": "C01.b", "old": "                m.set_params(**p)\n        return self\n", "new": "                m.set_params(**p)\n"},
+    {"name": "skbase-stored-wins", "file": _B, "rule": "C01.f", "old": "        params = self.P.to_dict()\n        params.update(values)\n", "new": "        params = dict(values)\n        params.update(self.P.to_dict())\n"},
     {"name": "skbase-lossy", "file": _B, "rule": "C01.f", "old": "        params.update(values)\n", "new": "        params = dict(values)\n"},
     {"name": "cak-swapped-receivers", "file": _K, "rule": "C01.d", "old": "        self.clus.set_params(**pc)\n        self.estimator.set_params(**pe)\n", "new": "        self.clus.set_params(**pe)\n        self.estimator.set_params(**pc)\n"},
     {"name": "cak-wrong-prefix-len", "file": _K, "rule": "C01.d", "old": "pe[k[2:]] = v", "new": "pe[k[1:]] = v"},
